@@ -64,6 +64,10 @@ pub use self::{
 mod error;
 mod functions;
 mod keys;
+
+#[cfg(all(ruma_verif, feature = "ring-compat"))]
+#[doc(hidden)]
+pub use keys::verif_compatible_document;
 mod signatures;
 mod verification;
 
